@@ -41,6 +41,9 @@ func TestMain(m *testing.M) {
 type Case struct {
 	P0  uint64 `json:"p0,omitempty"`
 	Ops []Op   `json:"ops"`
+	// Segs (concurrent part only) follow Ops: each is a sequential piece
+	// followed by a block in which several harness goroutines act at once.
+	Segs []Seg `json:"segs,omitempty"`
 }
 
 // ------------------------------------------------------------------ universe
@@ -258,27 +261,8 @@ func (r *runner) observe(op Op, e *expect, injected channel.AdjudicatorEvent) *h
 	case e.reg != nil && len(calls) > 1:
 		return h.Failf("register-repeated", "after %v: %d Register calls for one event", op, len(calls))
 	case e.reg != nil:
-		c := calls[0]
-		if c.req.Params == nil || c.req.Params.ID() != r.u.ids[0] {
-			return h.Failf("register-args:parent-params", "after %v: Register request does not carry the ledger channel's parameters", op)
-		}
-		if d := sameTx(c.req.Tx.State, c.req.Tx.Sigs, r.u.tx(0, e.reg.ParentV, e.reg.ParentLocked)); d != "" {
-			return h.Failf("register-args:parent-tx", "after %v: Register request is not the newest published ledger-channel transaction (version %d, locked %v): %s", op, e.reg.ParentV, e.reg.ParentLocked, d)
-		}
-		if len(c.subs) != len(e.reg.Subs) {
-			return h.Failf("register-args:sub-count", "after %v: %d sub-channel states, the newest parent transaction locks %d", op, len(c.subs), len(e.reg.Subs))
-		}
-		for i, s := range e.reg.Subs {
-			if !s.Known {
-				continue
-			}
-			got := c.subs[i]
-			if got.Params == nil || got.Params.ID() != r.u.ids[s.J] {
-				return h.Failf("register-args:sub-params", "after %v: sub-state %d does not carry the parameters of sub-channel %d", op, i, s.J)
-			}
-			if d := sameTx(got.State, got.Sigs, r.u.tx(s.J, s.V, nil)); d != "" {
-				return h.Failf("register-args:sub-tx", "after %v: sub-state %d is not the newest published / archived transaction of sub-channel %d (version %d): %s", op, i, s.J, s.V, d)
-			}
+		if fl := r.checkRegArgs(op.String(), calls[0], e.reg); fl != nil {
+			return fl
 		}
 	}
 	// --- client streams
@@ -304,6 +288,33 @@ func (r *runner) observe(op Op, e *expect, injected channel.AdjudicatorEvent) *h
 		}
 		if !wasClosed && r.closed[c] && r.m.watched(c) {
 			return h.Failf("stream-closed-while-watched", "after %v: client stream of channel %d was closed although the channel is still watched", op, c)
+		}
+	}
+	return nil
+}
+
+// checkRegArgs compares the arguments of one Register call with the expected
+// channel tree.
+func (r *runner) checkRegArgs(op string, c regCall, exp *expReg) *h.Failure {
+	if c.req.Params == nil || c.req.Params.ID() != r.u.ids[0] {
+		return h.Failf("register-args:parent-params", "after %v: Register request does not carry the ledger channel's parameters", op)
+	}
+	if d := sameTx(c.req.Tx.State, c.req.Tx.Sigs, r.u.tx(0, exp.ParentV, exp.ParentLocked)); d != "" {
+		return h.Failf("register-args:parent-tx", "after %v: Register request is not the newest published ledger-channel transaction (version %d, locked %v): %s", op, exp.ParentV, exp.ParentLocked, d)
+	}
+	if len(c.subs) != len(exp.Subs) {
+		return h.Failf("register-args:sub-count", "after %v: %d sub-channel states, the newest parent transaction locks %d", op, len(c.subs), len(exp.Subs))
+	}
+	for i, s := range exp.Subs {
+		if !s.Known {
+			continue
+		}
+		got := c.subs[i]
+		if got.Params == nil || got.Params.ID() != r.u.ids[s.J] {
+			return h.Failf("register-args:sub-params", "after %v: sub-state %d does not carry the parameters of sub-channel %d", op, i, s.J)
+		}
+		if d := sameTx(got.State, got.Sigs, r.u.tx(s.J, s.V, nil)); d != "" {
+			return h.Failf("register-args:sub-tx", "after %v: sub-state %d is not the newest published / archived transaction of sub-channel %d (version %d): %s", op, i, s.J, s.V, d)
 		}
 	}
 	return nil
@@ -470,6 +481,15 @@ func runCase(c Case) *h.Outcome {
 			fl.Msg = fmt.Sprintf("op %d: %s", i, fl.Msg)
 			o.Fail = fl
 			break
+		}
+	}
+	for si := 0; si < len(c.Segs) && o.Fail == nil; si++ {
+		nr, ar, fl := r.runSeg(c.Segs[si])
+		refutes += nr
+		afterRefuse = afterRefuse || ar
+		if fl != nil {
+			fl.Msg = fmt.Sprintf("segment %d: %s", si, fl.Msg)
+			o.Fail = fl
 		}
 	}
 	o.Nontrivial = refutes > 0 || afterRefuse
@@ -891,9 +911,11 @@ func TestReplay(t *testing.T) {
 	}
 	rec := h.Begin("C05", "replay")
 	part := h.ReplayPart(p)
-	run := runCase
-	if part == "conc" {
-		run = runConcurrent
+	run := runCase // every part uses the same executor; concurrent cases carry segments
+	switch part {
+	case "enum", "random", "conc", "":
+	default:
+		t.Fatalf("unknown part %q in replay file", part)
 	}
 	if len(c.Inflight) > 0 {
 		// a process death: the cases that were executing, one after the other
@@ -906,6 +928,3 @@ func TestReplay(t *testing.T) {
 	rec.MarkCurrent(c.Case)
 	rec.Report(t, c.Case, run(c.Case))
 }
-
-// runConcurrent is part (c); see conc_test.go.
-var runConcurrent = runCase
